@@ -866,3 +866,124 @@ def break_to_flag(loop: ast.For, flag: str) -> Optional[List[ast.stmt]]:
         ast.copy_location(s, loop)
         ast.fix_missing_locations(s)
     return out
+
+
+def eliminate_local_memo(fn: ast.FunctionDef):
+    """A dictionary local to one call that only memoises a computation --
+
+        if K not in M: M[K] = E          v = M.get(K)
+        ... M[K] ...                     if v is None: v = M[K] = E
+                                         ... v ...
+
+    -- is removed: the uses read `E` directly.  Returns (rewritten copy, [(M, K, E)]) or None
+    when no local has this shape.  The rewrite preserves behaviour only if K determines E; that
+    is NOT checked here: the caller must check it for every (K, E) returned (a key that leaves
+    out something E depends on makes two different inputs share one result)."""
+    fn = copy.deepcopy(fn)
+    memos = []
+
+    def blocks(node):
+        for parent in ast.walk(node):
+            for field in ('body', 'orelse', 'finalbody'):
+                blk = getattr(parent, field, None)
+                if isinstance(blk, list) and blk and isinstance(blk[0], ast.stmt):
+                    yield blk
+
+    inits = []
+    for blk in blocks(fn):
+        for s in blk:
+            tgt, val = None, None
+            if isinstance(s, ast.Assign) and len(s.targets) == 1:
+                tgt, val = s.targets[0], s.value
+            elif isinstance(s, ast.AnnAssign) and s.value is not None:
+                tgt, val = s.target, s.value
+            if isinstance(tgt, ast.Name) and (
+                    (isinstance(val, ast.Dict) and not val.keys) or
+                    (isinstance(val, ast.Call) and ast.unparse(val.func) == 'dict'
+                     and not val.args and not val.keywords)):
+                inits.append((blk, s, tgt.id))
+    for blk0, init, M in inits:
+        uses = [n for n in ast.walk(fn) if isinstance(n, ast.Name) and n.id == M]
+        if sum(1 for n in uses if isinstance(n.ctx, ast.Store)) != 1:
+            continue
+        accounted = set()
+        plan = []          # (block, index, kind, K text, E, var)
+        for blk in blocks(fn):
+            for i, s in enumerate(blk):
+                # (a) if K not in M: M[K] = E
+                if isinstance(s, ast.If) and not s.orelse and len(s.body) == 1 and \
+                        isinstance(s.test, ast.Compare) and len(s.test.ops) == 1 and \
+                        isinstance(s.test.ops[0], ast.NotIn) and \
+                        isinstance(s.test.comparators[0], ast.Name) and \
+                        s.test.comparators[0].id == M and isinstance(s.body[0], ast.Assign) and \
+                        len(s.body[0].targets) == 1 and \
+                        isinstance(s.body[0].targets[0], ast.Subscript) and \
+                        ast.unparse(s.body[0].targets[0].value) == M and \
+                        ast.unparse(s.body[0].targets[0].slice) == ast.unparse(s.test.left):
+                    plan.append((blk, i, 'a', ast.unparse(s.test.left), s.body[0].value, None))
+                    accounted.add(id(s.test.comparators[0]))
+                    accounted.add(id(s.body[0].targets[0].value))
+                # (c) v = M.get(K); if v is None: v = M[K] = E
+                if isinstance(s, ast.Assign) and len(s.targets) == 1 and \
+                        isinstance(s.targets[0], ast.Name) and isinstance(s.value, ast.Call) and \
+                        isinstance(s.value.func, ast.Attribute) and s.value.func.attr == 'get' and \
+                        ast.unparse(s.value.func.value) == M and len(s.value.args) == 1 and \
+                        not s.value.keywords and i + 1 < len(blk):
+                    v = s.targets[0].id
+                    K = ast.unparse(s.value.args[0])
+                    t = blk[i + 1]
+                    if isinstance(t, ast.If) and not t.orelse and len(t.body) == 1 and \
+                            ast.unparse(t.test) == f'{v} is None' and \
+                            isinstance(t.body[0], ast.Assign):
+                        tg = [ast.unparse(x) for x in t.body[0].targets]
+                        if sorted(tg) == sorted([v, f'{M}[{K}]']):
+                            plan.append((blk, i, 'c', K, t.body[0].value, v))
+                            accounted.add(id(s.value.func.value))
+                            for x in t.body[0].targets:
+                                if isinstance(x, ast.Subscript):
+                                    accounted.add(id(x.value))
+        if not plan:
+            continue
+        keys = {p[3] for p in plan}
+        vals = {ast.unparse(p[4]) for p in plan}
+        if len(keys) != 1 or len(vals) != 1:
+            continue
+        K, E = plan[0][3], plan[0][4]
+        # remaining uses: loads M[K]
+        loads = []
+        ok = True
+        for n in ast.walk(fn):
+            if isinstance(n, ast.Subscript) and isinstance(n.value, ast.Name) and \
+                    n.value.id == M and id(n.value) not in accounted:
+                if isinstance(n.ctx, ast.Load) and ast.unparse(n.slice) == K:
+                    loads.append(n)
+                    accounted.add(id(n.value))
+                else:
+                    ok = False
+        init_name = [n for n in ast.walk(init) if isinstance(n, ast.Name) and n.id == M]
+        accounted.update(id(n) for n in init_name)
+        if not ok or any(id(n) not in accounted for n in uses):
+            continue
+        # the key and the operands of E must not be re-bound between the fill and the reads:
+        # they are locals of one loop iteration in every shape accepted above (same block)
+        for blk, i, kind, _, _, v in sorted(plan, key=lambda p: -p[1]):
+            if kind == 'a':
+                del blk[i]
+            else:
+                blk[i:i + 2] = [ast.copy_location(
+                    ast.Assign([ast.Name(v, ast.Store())], copy.deepcopy(E)), blk[i])]
+
+        class R(ast.NodeTransformer):
+            def visit_Subscript(self, n: ast.Subscript):
+                if any(n is l for l in loads):
+                    return copy.deepcopy(E)
+                return self.generic_visit(n)
+        fn = R().visit(fn)
+        for blk in blocks(fn):
+            if init in blk:
+                blk.remove(init)
+                if not blk:
+                    blk.append(ast.Pass())
+        memos.append((M, K, copy.deepcopy(E)))
+        ast.fix_missing_locations(fn)
+    return (fn, memos) if memos else None
